@@ -1,7 +1,7 @@
 (* C01 - the reported optimum is a genuinely evaluated point with its true energy.  Statements only. *)
 From Coq Require Import List ZArith Bool.
 From Coq Require Import QArith.
-From MV Require Import Common.Num Common.Order Common.NumQI Core.Machine Core.Machine_Proofs Core.DE Core.DE_Proofs Core.NM Core.NM_Proofs.
+From MV Require Import Common.Num Common.Order Common.NumQI Core.Machine Core.Machine_Proofs Core.DE Core.DE_Proofs Core.NM Core.NM_Proofs Core.Powell Core.Powell_Proofs.
 Import ListNotations.
 Open Scope Z_scope.
 
@@ -73,6 +73,37 @@ Theorem C01_nm_reported_best :
   last (stepmon N (fst r)) ([], inf) = nm_best N inf (snd r).
 Proof. exact nm_reported_best. Qed.
 Print Assumptions C01_nm_reported_best.
+
+(* Nelder-Mead: the best never gets worse - a Step on a simplex with at least two vertices reports a best energy that is not above
+   the previous one (or ends in the model's sentinel for an argsort answer that does not sort), for every candidate stream,
+   cost, constraints and state *)
+Theorem C01_nm_best_never_worse :
+  forall (N : Num) (inf : T N), StrictWeak (T N) (ltb N) ->
+  forall (s : sys N) (c : nm N) (i : nm_in N),
+  stepmon N s <> [] -> (2 <= length (combine (sim N c) (fsim N c)))%nat ->
+  let c' := fst (snd (run_prog inf true s (nm_step N inf s c i))) in
+  sim N c' = [] \/ ltb N (snd (nm_best N inf c)) (snd (nm_best N inf c')) = false.
+Proof. exact nm_best_never_worse. Qed.
+Print Assumptions C01_nm_best_never_worse.
+
+(* Powell's direction-set solver: for every cost, penalty, box, idempotent constraints function, every sequence of line searches
+   (whatever points Brent's method probes and whichever probe it returns), every extrapolation decision and every clean
+   operation sequence: once the initial evaluation is logged the reported best is a point at which a real call was made, with
+   the energy that call returned (or a top value), and it satisfies the constraints *)
+Theorem C01_powell_reported_best :
+  forall (N : Num) (inf : T N), (forall p, is_top N (add N inf p)) ->
+  forall cons0 : vec N -> vec N, (forall x, cons0 (cons0 x) = cons0 x) ->
+  forall (ops : list (op N (pw_in N))) (sc : sys N * pw N),
+  Forall (clean_op N _ (pw_ok_in N) true) ops -> P_pw N inf cons0 (fst sc) (snd sc) ->
+  let r := run N inf _ _ (pw_algo N inf) sc ops in
+  stepmon N (fst r) <> [] ->
+  honest N (fst r) (pw_best N inf (snd r)) /\ cons0 (fst (pw_best N inf (snd r))) = fst (pw_best N inf (snd r)).
+Proof. exact pw_reported_best. Qed.
+Print Assumptions C01_powell_reported_best.
+
+Example C01_powell_nonvacuous_init : forall (N : Num) (inf : T N) t ndim,
+  P_pw N inf (fun x => x) (init_sys N inf t) (pw_init N inf ndim).
+Proof. intros. apply pw_init_ok; reflexivity. Qed.
 
 (* non-vacuity.  (1) the order hypotheses of the theorems above hold in an executable instance: rationals with +infinity *)
 Example C01_hypotheses_satisfiable :
